@@ -237,6 +237,14 @@ def gen_c03(tier, seed):
             d["freq"] = rng.choice([10 ** 9, 10 ** 6, 1, 2_999_999_999])
         out.append(line(d))
         idx += 1
+    # sample counts far above anything a buffer would be pre-sized for (powers of two and their neighbours)
+    for n in ([65536, 65537, 70001] if tier == "quick" else [4096, 4097, 65535, 65536, 65537, 70001, 131073, 300000]):
+        for T in ([1, 3] if tier == "quick" else [1, 2, 3, 7]):
+            d = {"id": idx, "entry": rng.choice([0, 0, 2]), "T": T, "s": 1, "n": n, "cbase": 1, "seed": rng.randrange(1 << 20), "fplog": 0, "oshape": "z"}
+            if d["entry"] == 2:
+                d["ishape"] = rng.choice(["z", "s"])
+            out.append(line(d))
+            idx += 1
     # test mode and zero budgets
     for _ in range(60 if tier == "quick" else 3000):
         entry = rng.randrange(6)
